@@ -719,10 +719,23 @@ def runScript (respStream : Bool) (ops : List String) : String :=
           | [x] => (x, "")
           | x :: more => (x, ":".intercalate more)
           | [] => ("", "")
-        match actOf ao arg with
+        -- `t.burst:n:c` = a data frame and the trailer frame arriving together
+        let acts : Option (List Act) :=
+          if ao == "t.burst" then
+            (match arg.splitOn ":" with
+             | [n, c] => (match n.toNat?, c.toNat? with
+                | some n, some c => some [.tItem (.data n true), .tItem (.trailer c true)]
+                | _, _ => none)
+             | _ => none)
+          else (actOf ao arg).map fun a => [a]
+        match acts with
         | none => s!"bad-op@{k}"
-        | some a =>
-          let started := states.filterMap fun s => (step s a).map fun (s', es) => (s', es.map showEv)
+        | some acts =>
+          let started := states.filterMap fun s =>
+            acts.foldl (fun (acc : Option (St × List String)) a =>
+              match acc with
+              | none => none
+              | some (s, evs) => (step s a).map fun (s', es) => (s', evs ++ es.map showEv)) (some (s, []))
           let outs := closure 4000 started []
           let matching := (outs.filter fun (_, evs) => evs == observed).map (·.1)
           let dedup := matching.foldl (fun acc s => if acc.contains s then acc else s :: acc) []
